@@ -10,7 +10,9 @@ every command sequence up to depth 3 / 4 and the real binary is replayed step by
 written to standard output or to the -o file is the complete listing and nothing else)."""
 from lib import vlib, deccheck, clicheck
 
-KINDS = {"listing bytes", "listing values", "listing text", "listing has extra lines", "outcome differs"}
+# "call differs": the printed operands are validated against the machine and so are the delivered ones; a delivered call that
+# differs from the machine's is therefore a printed value that is not the delivered value (e.g. arc flags with reserved bits)
+KINDS = {"listing bytes", "listing values", "listing text", "listing has extra lines", "outcome differs", "call differs"}
 
 
 def run(ctx):
